@@ -5,6 +5,8 @@ CONSTANTS
   FIX_CLOSE = TRUE
   USER_NESTS = FALSE
   USER_REMOVES_ENTRIES = FALSE
+  USER_RENAMES = TRUE
+  RECHECK_ON_RENAME = TRUE
   FIX_BYUSER = TRUE
-INVARIANTS FdsMatch ListOK AllGone Released CreateOnce
+INVARIANTS FdsMatch ListOK AllGone Released CreateOnce Covered
 CHECK_DEADLOCK FALSE
